@@ -402,7 +402,8 @@ class DThread:
         s = cur()
         import uuid as _uuid
         nm = self.name
-        if isinstance(nm, _uuid.UUID):
+        if isinstance(nm, _uuid.UUID) or getattr(self._target, "__name__", "") == "post_event_thread_runner":
+            # the thread of a timed source (whatever the library calls it)
             nm = "timer%d" % sum(1 for t in s.threads if t.name.startswith("timer"))
         elif nm is None:
             nm = "T%d" % len(s.threads)
@@ -441,7 +442,8 @@ class DLock:
     def acquire(self, blocking=True, timeout=-1):
         s = cur()
         if s is not None:
-            s.yield_point(_label(self, "acquire"), (lambda: self._owner is None) if blocking else None)
+            waits = blocking and (timeout is None or timeout < 0)        # with a timeout the call may give up (see DRLock)
+            s.yield_point(_label(self, "acquire"), (lambda: self._owner is None) if waits else None)
         if self._owner is not None:
             return False
         self._owner = (s.me() if s else None) or True
@@ -476,8 +478,11 @@ class DRLock:
         s = cur()
         me = self._me()
         if s is not None:
+            # an acquire with a timeout may give up: whenever the scheduler runs the waiter while the lock is still held, the
+            # timeout is taken to have elapsed (time is a schedule choice) and the call returns False
+            waits = blocking and (timeout is None or timeout < 0)
             s.yield_point(_label(self, "acquire"), (lambda: self._owner is None or self._owner is me or self._owner == me)
-                          if blocking else None)
+                          if waits else None)
         if self._owner is not None and self._owner is not me and self._owner != me:
             return False
         self._owner = me
